@@ -83,6 +83,10 @@ pub fn run(prop: &str, tier: Tier, seed: i64, replay: Option<&str>) -> i32 {
             if matches!(prop, "C04" | "C06") {
                 shapes_stage(&mut ck);
             }
+            if prop == "C06" {
+                let (a, r) = crate::hist::limited_sink_sweep(prop);
+                ck.add_stage(a, r);
+            }
         },
         "C03" => {
             let (a, r) = sweeps::c03_sweep(tier);
@@ -94,12 +98,16 @@ pub fn run(prop: &str, tier: Tier, seed: i64, replay: Option<&str>) -> i32 {
             let (a, r) = crate::hist::explore_hold(prop, tier);
             ck.add_stage(a, r);
             history_stage(&mut ck);
+            let (a, r) = crate::hist::limited_sink_sweep(prop);
+            ck.add_stage(a, r);
             builder_stages(&mut ck, false);
         },
         "C12" => {
             hashorder_stage(&mut ck);
             checksum_stage(&mut ck);
             history_stage(&mut ck);
+            // checksums written by the finishing hook of a user-supplied type
+            shapes_stage(&mut ck);
             ck.lens_stage(plans_for(prop, tier));
             ck.ladder_stage();
             let (a, r) = crate::engine_b::spelling_stage(prop, monitors_for(prop), tier);
@@ -199,6 +207,8 @@ fn builder_stages(ck: &mut Check, with_product: bool) {
             ck.add_stage(a, r);
         }
         let (a, r) = ladders::<T>(ck.prop, mon, ck.tier);
+        ck.add_stage(a, r);
+        let (a, r) = relational_product::<T>(ck.prop, mon);
         ck.add_stage(a, r);
         // deeper histories over the reduced action set
         let m = BModel::<T>::new_sharp(ck.prop, mon);
@@ -488,6 +498,10 @@ pub fn replay_case(prop: &'static str, case: &Value) -> Option<Vec<Violation>> {
         "spell" => return crate::engine_b::replay(prop, monitors_for(prop), case),
         "history" => return crate::hist::replay(prop, case),
         "after-history" => return crate::hist::replay_after(prop, case, &|c| replay_case(prop, c)),
+        "limited-sink" => {
+            let (a, _) = crate::hist::limited_sink_sweep(prop);
+            acc.violations = a.violations.into_iter().filter(|v| v.case == *case).collect();
+        },
         "history-hold" => return crate::hist::replay_hold(prop, case),
         "pool-pair" => return crate::pools::replay_pair(case),
         "transcript" => {
@@ -515,6 +529,12 @@ pub fn replay_case(prop: &'static str, case: &Value) -> Option<Vec<Violation>> {
         "c08-name" => sweeps::c08_name_case(case["ty"].as_str()?, case["name"].as_str()?, &mut acc),
         #[cfg(feature = "typed")]
         "c08-maven-ns" => sweeps::c08_maven_case(case["ns"].as_str()?, &mut acc),
+        #[cfg(feature = "typed")]
+        "c08-unknown-type" => {
+            let mut a = Acc::new();
+            sweeps::c08_unknown_types(&mut a);
+            acc.violations = a.violations.into_iter().filter(|v| v.case == *case).collect();
+        },
         #[cfg(feature = "typed")]
         "c08-other-fields" => {
             let mut a = Acc::new();
